@@ -634,6 +634,15 @@ func (x *Exec) checkPost(s *State, res []Val) {
 		}
 	}
 	env := x.specEnv(s, x.entryHeap, x.resultVars(res))
+	if x.relyMode {
+		for _, c := range x.spec.REnsures {
+			if !hasProp(c.Props, x.prop) {
+				continue
+			}
+			x.emit(s, "rely", c.Label, c.Props, env.evalBool(c.Expr), c)
+		}
+		return
+	}
 	for _, c := range x.spec.Ensures {
 		if !hasProp(c.Props, x.prop) {
 			continue
@@ -793,8 +802,8 @@ func (x *Exec) havocAssign(s *State, env *Env, a string) {
 			s.assume("(= " + nv + " (store " + cur + " " + t.base + " " + hv + "))")
 		}
 		s.heap[t.arr] = nv
+		delete(s.cache, t.arr)
 	}
-	x.clearCache(s)
 }
 
 func parseIntLit(s string) (int, bool) {
